@@ -23,6 +23,14 @@ from pyvc.harness import REGISTRY, run_contract, native_eval, unjson, jsonable  
 PROP_META = {}
 
 
+def _replay(cls, inputs, excl=()):
+    """run the REAL code on a concrete input and evaluate the contract natively -> None | (ok, detail)"""
+    obj = cls()
+    if hasattr(obj, "native_replay"):
+        return obj.native_replay(inputs)
+    return native_eval(obj, unjson(inputs), excl)
+
+
 def load_props():
     out = {}
     with open(os.path.join(VERIF, "properties.jsonl")) as f:
@@ -93,7 +101,7 @@ def main(argv=None):
         fc = cls()
         still = False
         try:
-            r = native_eval(fc, unjson(fd["input"]))
+            r = _replay(cls, fd["input"])
             still = (r is not None and not r[0])
         except Exception:
             still = True
@@ -151,7 +159,7 @@ def main(argv=None):
                 for o in obs:
                     if o.get("inputs") is not None:
                         try:
-                            rr = native_eval(fc, unjson(o["inputs"]), excl)
+                            rr = _replay(cls, o["inputs"], excl)
                         except Exception as e:
                             rr = None
                         if rr is not None and not rr[0]:
@@ -198,7 +206,8 @@ def main(argv=None):
         rep["replay_cmd"] = "./check %s --replay %s" % (prop, path)
         json.dump(rep, open(path, "w"), indent=1, default=str)
         print("VIOLATION property=%s replay=%s%s" % (prop, path, "" if has_input else " no-failing-input-found"))
-        print("   obligation %s (%s)%s" % (name, ",".join(rep.get("solver_status", ["runtime"])),
+        sts = rep.get("solver_status", ["runtime"])
+        print("   obligation %s (%s)%s" % (name, ",".join("%s x%d" % (x, sts.count(x)) for x in sorted(set(sts))),
                                           ("  input: " + json.dumps(rep.get("inputs"))[:300]) if has_input else ""))
         code = 1
     write_evidence(prop, a.tier, seed, results, violations, known_lines, time.time() - t0, crashes)
@@ -220,8 +229,7 @@ def do_replay(prop, path, classes):
         print("replay file carries no failing input (obligation %s: %s)" % (rep["obligation"], rep.get("solver_status")))
         print(json.dumps(rep, indent=1)[:3000])
         return 1
-    fc = cls()
-    r = native_eval(fc, unjson(rep["inputs"]))
+    r = _replay(cls, rep["inputs"])
     if r is None:
         print("input is outside the contract's precondition on this tree")
         return 0
